@@ -63,11 +63,13 @@ package mkvs
 
 //@ func tree.Insert
 //@   props C13
+//@   nowrite pendingEntry.existed
 //@   precall mkvs\.cache\)\.setPendingRoot$ :: t.withoutWriteLog || (t.pendingWriteLog[ufr[string]("toMapKey", key)] != nil && t.pendingWriteLog[ufr[string]("toMapKey", key)].insertedLeaf == result.insertedLeaf && bytesId(t.pendingWriteLog[ufr[string]("toMapKey", key)].value) == bytesId(value) && (defined(entry) && entry == nil ==> t.pendingWriteLog[ufr[string]("toMapKey", key)].existed == result.existed))
 //@   note the stored write log and its annotations are built from these entries at commit: a stale leaf (e.g. nil after remove + re-insert in one batch) would make the database serve a log that does not reproduce the new root
 
 //@ func tree.RemoveExisting
 //@   props C13
+//@   nowrite pendingEntry.existed
 //@   precall mkvs\.cache\)\.setPendingRoot$ :: t.withoutWriteLog || (entry != nil && entry.value == nil && entry.insertedLeaf == nil) || (entry == nil && t.pendingWriteLog[ufr[string]("toMapKey", key)] != nil && t.pendingWriteLog[ufr[string]("toMapKey", key)].insertedLeaf == nil && t.pendingWriteLog[ufr[string]("toMapKey", key)].value == nil && t.pendingWriteLog[ufr[string]("toMapKey", key)].existed == changed)
 //@   note after a removal the entry recorded for the key has no value and no inserted leaf, and a NEW entry records "existed before" exactly as the tree reported it (doRemove's changed flag - also for a key stored with an empty value): the stored log will contain a deletion, or nothing only if the key did not exist before
 
